@@ -7,13 +7,13 @@
 From Irismod Require Import Genesis.Store.
 (** No free-standing invariant:
 
-    For record, coinswap, random, nft, mt, htlc and token the reachability invariant [invb] is DERIVED from the other groups'
+    For record, coinswap, random, nft, mt, htlc, token and farm the reachability invariant [invb] is DERIVED from the other groups'
     message-level models ([Genesis/Link<Mod>.v]): an abstraction [abs] maps a state of that model to the
     genesis-level state (renaming ids by an injective numbering, sorting the stores the way the KV store
     iterates), and [reachable_<mod>] proves [invb (abs (run h)) = true] for every history [h] from that
     model's proved invariants (plus small extra invariants proved over its step function).  The C12
     statements then quantify over histories. *)
-From Irismod Require Genesis.LinkRecord Genesis.LinkCoinswap Genesis.LinkRandom Genesis.LinkNft Genesis.LinkMt Genesis.LinkHtlc Genesis.LinkToken.
+From Irismod Require Genesis.LinkRecord Genesis.LinkCoinswap Genesis.LinkRandom Genesis.LinkNft Genesis.LinkMt Genesis.LinkHtlc Genesis.LinkToken Genesis.LinkFarm Genesis.LinkHtlcParams Genesis.LinkOracle Genesis.LinkService.
 
 Module LinkRecordC12.
 Import Genesis.LinkRecord.
@@ -260,4 +260,228 @@ Theorem token_history_roundtrip :
   = Some (abs rs rm ro nlen (M.run (M.genesis p balances ss reg) ms)).
 Proof. exact LinkToken.token_history_roundtrip. Qed.
 Print Assumptions token_history_roundtrip.
+
+(** round 5: the same for histories that also contain the conversion messages ([link_msg]: the C09 messages, fee-token
+    swaps, conversions to / from ERC20, the EVM hook, EVM-mode switches, beacon upgrades; NOT [Deploy]).  What these
+    messages change — bank, ERC20 ledger, EVM mode — is outside the exported genesis. *)
+Theorem reachable_token_conv :
+  forall (rs rm : M.name -> Z) (ro : M.acct -> Z) (nlen : Z -> Z),
+  (forall n, 0 <= rm n) -> (forall a, 0 <= a -> 0 <= ro a) -> (forall nm, 0 <= nm -> 0 < nlen nm <= 32) ->
+  forall p balances ss reg (ms : list M.msg),
+  pars_good p -> M.p_fee_denom p = M.STAKE -> NoDup (keys balances) -> Forall link_msg ms ->
+  inj_on rs (map fst (M.tokens (M.run (M.genesis p balances ss reg) ms))) ->
+  inj_on rm (map fst (M.minunits (M.run (M.genesis p balances ss reg) ms))) ->
+  G.invb (abs rs rm ro nlen (M.run (M.genesis p balances ss reg) ms)) = true.
+Proof. exact LinkToken.reachable_token_conv. Qed.
+Print Assumptions reachable_token_conv.
+
+Theorem token_history_conv_roundtrip :
+  forall (rs rm : M.name -> Z) (ro : M.acct -> Z) (nlen : Z -> Z),
+  (forall n, 0 <= rm n) -> (forall a, 0 <= a -> 0 <= ro a) -> (forall nm, 0 <= nm -> 0 < nlen nm <= 32) ->
+  forall p balances ss reg (ms : list M.msg),
+  pars_good p -> M.p_fee_denom p = M.STAKE -> NoDup (keys balances) -> Forall link_msg ms ->
+  inj_on rs (map fst (M.tokens (M.run (M.genesis p balances ss reg) ms))) ->
+  inj_on rm (map fst (M.minunits (M.run (M.genesis p balances ss reg) ms))) ->
+  G.validate false (G.export (abs rs rm ro nlen (M.run (M.genesis p balances ss reg) ms))) = true
+  /\ G.import false (G.export (abs rs rm ro nlen (M.run (M.genesis p balances ss reg) ms)))
+     = Some (abs rs rm ro nlen (M.run (M.genesis p balances ss reg) ms)).
+Proof.
+  intros. split; [apply LinkToken.token_history_conv_export_validates|apply LinkToken.token_history_conv_roundtrip]; assumption.
+Qed.
+Print Assumptions token_history_conv_roundtrip.
 End LinkTokenC12.
+
+(** ** farm: [invb] derived from the message-level model of the farm group ([Farm/Model.v], [Farm/Inv.v] [inv],
+    [Farm/Proofs.v], [Farm/History.v] [pool_step_lemma] / [new_pool_lemma], [Farm/Pres2.v] [end_block_fold]) plus the
+    invariant [F] of [Genesis/LinkFarm.v] (rule totals positive, stored parameters valid).  The exported state is a
+    BLOCK-BOUNDARY state: [step_state (run (init b h0) steps) NextBlock] for any valid steps (messages of
+    non-module accounts, MsgUpdateParams included, and block boundaries) from a genesis with empty farm escrow.
+    The three farm fixes of this group are in the code and in the models (a stake is positive: [pi_pos]; a reward
+    per share may be zero; import at height h re-enqueues a pool ending at h).  Hypotheses left: the numberings
+    [ra] (accounts) and [rd] (denoms) are non-negative and [rd] is injective; description lengths are at most 280. *)
+Module LinkFarmC12.
+Import Genesis.LinkFarm.
+
+Theorem reachable_farm :
+  forall ra rd desc dlen : Z -> Z,
+  (forall a, 0 <= ra a) -> (forall d, 0 <= rd d) -> (forall a b, rd a = rd b -> a = b) -> (forall id, dlen id <= 280) ->
+  forall b h0 steps, MP.genesis_ok b h0 -> Forall MI.valid_step steps ->
+  let s := M.step_state (M.run (M.init b h0) steps) M.NextBlock in
+  G.invb true (M.height s) (abs ra rd desc dlen s) = true.
+Proof. exact LinkFarm.reachable_farm. Qed.
+Print Assumptions reachable_farm.
+
+Theorem farm_history_export_validates :
+  forall ra rd desc dlen : Z -> Z,
+  (forall a, 0 <= ra a) -> (forall d, 0 <= rd d) -> (forall a b, rd a = rd b -> a = b) -> (forall id, dlen id <= 280) ->
+  forall b h0 steps, MP.genesis_ok b h0 -> Forall MI.valid_step steps ->
+  let s := M.step_state (M.run (M.init b h0) steps) M.NextBlock in
+  G.validate true false (G.export (abs ra rd desc dlen s)) = true.
+Proof. exact LinkFarm.farm_history_export_validates. Qed.
+Print Assumptions farm_history_export_validates.
+
+(** the new chain starts at the height of the next block: import does not panic and gives back the state itself *)
+Theorem farm_history_roundtrip :
+  forall ra rd desc dlen : Z -> Z,
+  (forall a, 0 <= ra a) -> (forall d, 0 <= rd d) -> (forall a b, rd a = rd b -> a = b) -> (forall id, dlen id <= 280) ->
+  forall b h0 steps, MP.genesis_ok b h0 -> Forall MI.valid_step steps ->
+  let s := M.step_state (M.run (M.init b h0) steps) M.NextBlock in
+  G.import true true false (M.height s) (G.export (abs ra rd desc dlen s)) = Some (abs ra rd desc dlen s).
+Proof. exact LinkFarm.farm_history_roundtrip. Qed.
+Print Assumptions farm_history_roundtrip.
+
+(** second export = first; pools, rules, farmers, parameters read the same; the new chain's queue holds exactly the
+    pools still to be closed *)
+Theorem farm_history_fixpoint_and_queries :
+  forall ra rd desc dlen : Z -> Z,
+  (forall a, 0 <= ra a) -> (forall d, 0 <= rd d) -> (forall a b, rd a = rd b -> a = b) -> (forall id, dlen id <= 280) ->
+  forall b h0 steps, MP.genesis_ok b h0 -> Forall MI.valid_step steps ->
+  let s := M.step_state (M.run (M.init b h0) steps) M.NextBlock in
+  exists s', G.import true true false (M.height s) (G.export (abs ra rd desc dlen s)) = Some s'
+    /\ G.export s' = G.export (abs ra rd desc dlen s) /\ G.queries s' = G.queries (abs ra rd desc dlen s)
+    /\ G.queue s' = G.queue_at (M.height s) (G.pools s').
+Proof. exact LinkFarm.farm_history_fixpoint_and_queries. Qed.
+Print Assumptions farm_history_fixpoint_and_queries.
+End LinkFarmC12.
+
+(** ** htlc, round 5: the same for histories WITH parameter changes, the compatible ones.  [wfp_run]: as the htlc
+    group's [wf_run] (an accepted MsgUpdateParams keeps the supported denoms and its limits cover the stored
+    supplies: [compat_b]) plus [keeps_active] (an active asset stays active) — together this group's
+    [params_cover]; a change outside them can make the export un-importable (the known finding).  The histories
+    without parameter changes of [LinkHtlcC12] are the special case [wf0_wfp]. *)
+Module LinkHtlcParamsC12.
+Import Genesis.LinkHtlc Genesis.LinkHtlcParams.
+
+Theorem reachable_htlc_params :
+  forall (rk : M.cid -> Z) (hl : M.hlock -> Z) (rs : Z -> Z) (oth : M.cid -> Z * Z),
+  (forall id, fst (oth id) <= 128 /\ snd (oth id) <= 128) ->
+  forall P b t0 ops, M.params_valid P = true -> MP.escrow_empty b -> wfp_run (M.init P b t0) ops -> Forall ts_ok ops ->
+  inj_on rk (map fst (M.st_contracts (MP.reachable P b t0 ops))) ->
+  G.invb true (abs_o rk hl rs oth (MP.reachable P b t0 ops)) = true.
+Proof. exact LinkHtlcParams.reachable_htlc_params. Qed.
+Print Assumptions reachable_htlc_params.
+
+Theorem htlc_params_history_export_validates :
+  forall (rk : M.cid -> Z) (hl : M.hlock -> Z) (rs : Z -> Z) (oth : M.cid -> Z * Z),
+  (forall id, fst (oth id) <= 128 /\ snd (oth id) <= 128) ->
+  forall P b t0 ops, M.params_valid P = true -> MP.escrow_empty b -> wfp_run (M.init P b t0) ops -> Forall ts_ok ops ->
+  inj_on rk (map fst (M.st_contracts (MP.reachable P b t0 ops))) ->
+  G.validate true (G.export (abs rk hl rs oth (MP.reachable P b t0 ops))) = true.
+Proof. exact LinkHtlcParams.htlc_params_history_export_validates. Qed.
+Print Assumptions htlc_params_history_export_validates.
+
+Theorem htlc_params_history_import_is_open_part :
+  forall (rk : M.cid -> Z) (hl : M.hlock -> Z) (rs : Z -> Z) (oth : M.cid -> Z * Z),
+  (forall id, fst (oth id) <= 128 /\ snd (oth id) <= 128) ->
+  forall P b t0 ops, M.params_valid P = true -> MP.escrow_empty b -> wfp_run (M.init P b t0) ops -> Forall ts_ok ops ->
+  inj_on rk (map fst (M.st_contracts (MP.reachable P b t0 ops))) ->
+  G.import true (G.export (abs rk hl rs oth (MP.reachable P b t0 ops))) = Some (abs_o rk hl rs oth (MP.reachable P b t0 ops)).
+Proof. exact LinkHtlcParams.htlc_params_history_import_is_open_part. Qed.
+Print Assumptions htlc_params_history_import_is_open_part.
+End LinkHtlcParamsC12.
+
+(** ** oracle: [invb] derived from the message-level model of the oracle group ([Oracle/Model.v], [Oracle/Proofs.v]
+    [Inv], [Inv_run], [feed_ctx_inj]) plus the invariant [VS] of [Genesis/LinkOracle.v] (every feed's values are in
+    ascending key order), for EVERY history of the model — no hypothesis on it.  The service module's request
+    contexts are the environment ([abs_env]: the contexts of the model state).  Left hand-written: nothing of
+    [invb]; [abs] takes the creator numbering (non-negative) and the descriptions' lengths (at most 280) as
+    parameters and sets the syntactic validity flags of name / aggregate function to true. *)
+Module LinkOracleC12.
+Import Genesis.LinkOracle.
+
+Theorem reachable_oracle :
+  forall rc desc dlen : Z -> Z, (forall a, 0 <= rc a) -> (forall n, dlen n <= 280) ->
+  forall h : list M.step, G.invb (abs rc desc dlen (M.run M.init h)) = true.
+Proof. exact LinkOracle.reachable_oracle. Qed.
+Print Assumptions reachable_oracle.
+
+Theorem oracle_history_export_validates :
+  forall rc desc dlen : Z -> Z, (forall a, 0 <= rc a) -> (forall n, dlen n <= 280) ->
+  forall h : list M.step,
+  G.validate (G.export (abs_env (M.run M.init h)) (abs rc desc dlen (M.run M.init h))) = true.
+Proof. exact LinkOracle.oracle_history_export_validates. Qed.
+Print Assumptions oracle_history_export_validates.
+
+(** import does not panic on any chain whose service module knows the feeds' request contexts *)
+Theorem oracle_history_import_total :
+  forall rc desc dlen : Z -> Z, (forall a, 0 <= rc a) -> (forall n, dlen n <= 280) ->
+  forall (h : list M.step) (eB : G.env),
+  (forall f, In f (G.feeds (abs rc desc dlen (M.run M.init h))) -> has (G.o_ctx (snd f)) eB = true) ->
+  G.import true eB (G.export (abs_env (M.run M.init h)) (abs rc desc dlen (M.run M.init h))) <> None.
+Proof. exact LinkOracle.oracle_history_import_total. Qed.
+Print Assumptions oracle_history_import_total.
+
+(** with the chain's own contexts on the new chain (which they are known: [contexts_known]): second export = first,
+    same feeds, every feed's value history reads the same *)
+Theorem oracle_history_fixpoint_and_queries :
+  forall rc desc dlen : Z -> Z, (forall a, 0 <= rc a) -> (forall n, dlen n <= 280) ->
+  forall h : list M.step,
+  let s := M.run M.init h in
+  exists s', G.import true (abs_env s) (G.export (abs_env s) (abs rc desc dlen s)) = Some s'
+    /\ G.export (abs_env s) s' = G.export (abs_env s) (abs rc desc dlen s)
+    /\ G.feeds s' = G.feeds (abs rc desc dlen s)
+    /\ forall f, In f (G.feeds (abs rc desc dlen s)) -> G.values_of s' (fst f) = G.values_of (abs rc desc dlen s) (fst f).
+Proof. exact LinkOracle.oracle_history_fixpoint_and_queries. Qed.
+Print Assumptions oracle_history_fixpoint_and_queries.
+End LinkOracleC12.
+
+(** ** service: a PARTIAL link ([Genesis/LinkService.v]).  The genesis-level service model is structural (field-level
+    validity of parameters / definitions / bindings / request contexts is the module's own Validate, carried as
+    flags).  Derived for EVERY history of the service group's model: the structural [invb] of the abstraction;
+    from their [WInv] ([reach_W]) that the model's provider -> owner store is the view [owners_view] the
+    genesis-level model computes from the bindings; from their [DepInv] that binding owners and withdraw addresses
+    are addresses; and the round trip after PrepForZeroHeightGenesis (as-is only when every context is paused
+    with a completed batch — the known finding otherwise).  LEFT HAND-WRITTEN: the validity flags (set to true by
+    [abs]) and the (owner, service, provider) index, which the message model does not have. *)
+Module LinkServiceC12.
+Import Genesis.LinkService.
+
+Theorem reachable_service :
+  forall (np : Z -> Z) (nc : M.ctxid -> Z) (npr : M.binding -> Z) (pblob : Z) (dblob : Z -> Z)
+         (bblob : (Z * Z) -> M.binding -> Z) (xblob : M.ctxid -> M.context -> Z),
+  (forall a, 0 <= np a) -> (forall a b, np a = np b -> a = b) -> (forall a, 0 <= nc a) -> (forall a b, nc a = nc b -> a = b) ->
+  (forall b, 0 <= npr b) ->
+  forall c h0 t0 l0 steps, G.invb (abs np nc npr pblob dblob bblob xblob (M.run c (M.init h0 t0 l0) steps)) = true.
+Proof. exact LinkService.reachable_service. Qed.
+Print Assumptions reachable_service.
+
+Theorem service_owner_index_is_view :
+  forall (np : Z -> Z) (nc : M.ctxid -> Z) (npr : M.binding -> Z) (pblob : Z) (dblob : Z -> Z)
+         (bblob : (Z * Z) -> M.binding -> Z) (xblob : M.ctxid -> M.context -> Z),
+  (forall a b, np a = np b -> a = b) ->
+  forall c h0 t0 l0 steps,
+  G.owners_view (abs np nc npr pblob dblob bblob xblob (M.run c (M.init h0 t0 l0) steps))
+  = abs_owners np (M.run c (M.init h0 t0 l0) steps).
+Proof. exact LinkService.service_owner_index_is_view. Qed.
+Print Assumptions service_owner_index_is_view.
+
+Theorem service_owners_are_addresses :
+  forall c h0 t0 l0 steps, Irismod.Base.Bank.bal l0 M.DEP M.BASE = 0 ->
+  (forall k b, get k (M.binds (M.run c (M.init h0 t0 l0) steps)) = Some b -> 0 <= M.b_owner b)
+  /\ (forall o w, get o (M.waddr (M.run c (M.init h0 t0 l0) steps)) = Some w -> 0 <= w).
+Proof. exact LinkService.service_owners_are_addresses. Qed.
+Print Assumptions service_owners_are_addresses.
+
+Theorem service_history_prep_roundtrip :
+  forall (np : Z -> Z) (nc : M.ctxid -> Z) (npr : M.binding -> Z) (pblob : Z) (dblob : Z -> Z)
+         (bblob : (Z * Z) -> M.binding -> Z) (xblob : M.ctxid -> M.context -> Z),
+  (forall a, 0 <= np a) -> (forall a b, np a = np b -> a = b) -> (forall a, 0 <= nc a) -> (forall a b, nc a = nc b -> a = b) ->
+  (forall b, 0 <= npr b) ->
+  forall c h0 t0 l0 steps,
+  let a := abs np nc npr pblob dblob bblob xblob (M.run c (M.init h0 t0 l0) steps) in
+  G.validate (G.export (G.prep a)) = true /\ G.import (G.export (G.prep a)) = Some (G.prep a).
+Proof. exact LinkService.service_history_prep_roundtrip. Qed.
+Print Assumptions service_history_prep_roundtrip.
+
+Theorem service_history_quiet_roundtrip :
+  forall (np : Z -> Z) (nc : M.ctxid -> Z) (npr : M.binding -> Z) (pblob : Z) (dblob : Z -> Z)
+         (bblob : (Z * Z) -> M.binding -> Z) (xblob : M.ctxid -> M.context -> Z),
+  (forall a, 0 <= np a) -> (forall a b, np a = np b -> a = b) -> (forall a, 0 <= nc a) -> (forall a b, nc a = nc b -> a = b) ->
+  (forall b, 0 <= npr b) ->
+  forall c h0 t0 l0 steps,
+  (forall id x, get id (M.ctxs (M.run c (M.init h0 t0 l0) steps)) = Some x -> M.x_state x = 1 /\ M.x_brun x = false) ->
+  let a := abs np nc npr pblob dblob bblob xblob (M.run c (M.init h0 t0 l0) steps) in
+  G.validate (G.export a) = true /\ G.import (G.export a) = Some a.
+Proof. exact LinkService.service_history_quiet_roundtrip. Qed.
+Print Assumptions service_history_quiet_roundtrip.
+End LinkServiceC12.
